@@ -11,6 +11,7 @@ import (
 	"net/http"
 	"net/url"
 	"regexp"
+	"strconv"
 	"strings"
 	"time"
 
@@ -685,4 +686,20 @@ func msDur(ms int) time.Duration { return time.Duration(ms) * time.Millisecond }
 func setAACRate(t *Track, rate int) {
 	t.ClockRate = rate
 	t.Codec.(*codecs.MPEG4Audio).Config.SampleRate = rate
+}
+
+// The naming scheme of the muxer's resources as observed on the pinned tree; the harness spells it out itself (to guess
+// names that were never advertised, to block a file that is about to be created) instead of calling the library's helpers.
+func vSegmentPath(prefix, streamID string, id uint64, mp4 bool) string {
+	ext := ".ts"
+	if mp4 {
+		ext = ".mp4"
+	}
+	return prefix + "_" + streamID + "_seg" + strconv.FormatUint(id, 10) + ext
+}
+
+func vInitFilePath(prefix, streamID string) string { return prefix + "_" + streamID + "_init.mp4" }
+
+func vPartPath(prefix, streamID string, id uint64) string {
+	return prefix + "_" + streamID + "_part" + strconv.FormatUint(id, 10) + ".mp4"
 }
